@@ -6,7 +6,8 @@
        one member, one constructor parameter and one initialiser per field, in declaration order. *)
 From Coq Require Import List String Ascii ZArith Bool Arith.
 From PDV Require Import Lib.StrUtil Marshal.Ident Marshal.IdentProofs Marshal.TypeStr Marshal.TypeStrProofs
-                        Jinja.Tir Jinja.Interp Gen.Templates Jinja.FragFlags Jinja.FragEnums Jinja.FragRecord Jinja.FragDecl Jinja.FragIface Jinja.Inline Jinja.FragIfaceJava Jinja.FragErr.
+                        Jinja.Tir Jinja.Interp Gen.Templates Jinja.FragFlags Jinja.FragEnums Jinja.FragRecord Jinja.FragDecl Jinja.FragIface Jinja.Inline Jinja.FragIfaceJava Jinja.FragErr
+                        Lang.Comment Jinja.FragFlagsObjc Jinja.FragFlagsCli Jinja.LoopPure Jinja.FragEnums2 Jinja.FragDeclObjc Jinja.FragIfaceObjc.
 Import ListNotations.
 Open Scope string_scope. Open Scope list_scope.
 
@@ -143,6 +144,62 @@ Theorem C02_loops_are_the_templates :
   Slice.nth_for "fields" 2 t_java_record_jinja2_java = Some java_assign_loop.
 Proof. repeat split; vm_compute; reflexivity. Qed.
 Print Assumptions C02_loops_are_the_templates.
+
+(* ---- Objective-C and C++/CLI (no compiler for either in the sandbox: the theorem over the translated template is the tie) ---- *)
+(* ObjC record: both initialisers take one  [label]:(type)name  part per field in order; one read-only @property per field *)
+Theorem C02_record_decl_objc : forall fl,
+  exec objc_cfg objc_init_loop (ostate fl) = (ostate fl, plines objc_selector_part fl 0) /\
+  exec objc_cfg objc_conv_loop (ostate fl) = (ostate fl, plines objc_selector_part fl 0) /\
+  exec objc_cfg objc_prop_loop (ostate fl) = (ostate fl, plines objc_property fl 0).
+Proof. intros fl. repeat split; [apply objc_init_render | apply objc_conv_render | apply objc_prop_render]. Qed.
+Print Assumptions C02_record_decl_objc.
+
+(* C++/CLI record: constructor parameters, get-only properties and private backing fields, one per field in order *)
+Theorem C02_record_decl_cppcli : forall fl,
+  exec cli_cfg cli_ctor_loop (cstate fl) = (cstate fl, plines cli_ctor_param fl 0) /\
+  exec cli_cfg cli_prop_loop (cstate fl) = (cstate fl, plines cli_property fl 0) /\
+  exec cli_cfg cli_backing_loop (cstate fl) = (cstate fl, plines cli_backing fl 0).
+Proof. intros fl. repeat split; [apply cli_ctor_render | apply cli_prop_render | apply cli_backing_render]. Qed.
+Print Assumptions C02_record_decl_cppcli.
+
+(* ObjC protocol / C++/CLI abstract class: one method declaration per IDL method, in order, any parameter lists *)
+Theorem C02_interface_decl_objc : forall ml,
+  exec objc_cfg oiface_loop (oistate ml) = (oistate ml, concat "" (map omethod_decl ml)).
+Proof. exact oiface_methods_render. Qed.
+Print Assumptions C02_interface_decl_objc.
+
+Theorem C02_interface_decl_cppcli : forall ml,
+  exec cli_cfg kiface_loop (kistate ml) = (kistate ml, concat "" (map kmethod_decl ml)).
+Proof. exact kiface_methods_render. Qed.
+Print Assumptions C02_interface_decl_cppcli.
+
+(* enums: exactly the items, in order (Java / ObjC / C++-CLI; the C++ loop is C08_cpp_enum_render) *)
+Theorem C02_enum_items : forall tn il,
+  exec java_cfg java_enum_loop (e2state "java" tn il) = (e2state "java" tn il, plines java_enum_line il 0) /\
+  exec objc_cfg objc_enum_loop (e2state "objc" tn il) = (e2state "objc" tn il, plines (objc_enum_line tn) il 0) /\
+  exec cli_cfg cli_enum_loop (e2state "cppcli" tn il) = (e2state "cppcli" tn il, plines cli_enum_line il 0).
+Proof. intros tn il. repeat split; [apply java_enum_render | apply objc_enum_render | apply cli_enum_render]. Qed.
+Print Assumptions C02_enum_items.
+
+Theorem C02_members_in_declaration_order_2 : forall (A : Type) (h : A -> nat -> bool -> string) l idx k a, nth_error l k = Some a ->
+  exists pre post, plines h l idx = (pre ++ h a (idx + k) (match skipn (S k) l with [] => true | _ => false end) ++ post)%string.
+Proof. exact @plines_nth. Qed.
+Print Assumptions C02_members_in_declaration_order_2.
+
+Theorem C02_objc_cppcli_loops_are_the_templates :
+  (Slice.nth_for "fields" 0 t_objc_header_record_jinja2_h = Some objc_init_loop /\
+   Slice.nth_for "fields" 1 t_objc_header_record_jinja2_h = Some objc_conv_loop /\
+   Slice.nth_for "fields" 2 t_objc_header_record_jinja2_h = Some objc_prop_loop /\
+   List.length (Slice.find_fors_in "fields" t_objc_header_record_jinja2_h) = 3 /\
+   Slice.nth_for "fields" 0 t_cppcli_header_record_jinja2_hpp = Some cli_ctor_loop /\
+   Slice.nth_for "fields" 1 t_cppcli_header_record_jinja2_hpp = Some cli_prop_loop /\
+   Slice.nth_for "fields" 2 t_cppcli_header_record_jinja2_hpp = Some cli_backing_loop /\
+   List.length (Slice.find_fors_in "fields" t_cppcli_header_record_jinja2_hpp) = 3) /\
+  (Slice.nth_for "methods" 0 t_objc_header_interface_jinja2_h = Some oiface_loop /\
+   List.length (Slice.find_fors_in "methods" t_objc_header_interface_jinja2_h) = 1 /\
+   Slice.nth_for "methods" 0 t_cppcli_header_interface_jinja2_hpp = Some kiface_loop).
+Proof. split; [exact objc_cli_loops_are_the_templates | exact objc_cli_iface_loops_are_the_templates]. Qed.
+Print Assumptions C02_objc_cppcli_loops_are_the_templates.
 
 (* non-vacuity: list<map<string, i32?>>? and an interface parameter *)
 Example C02_example :
